@@ -138,11 +138,6 @@ pub fn generate(world: &World, seed: u64, run: u64) -> Trace {
         if shape != Shape::Bare && !reader.container_ok() {
             reader = Reader::Decode;
         }
-        if rl == RlMode::Err && reader == Reader::IntegerTwin && matches!(shape, Shape::Vec | Shape::Append) {
-            // codec's Vec<integer> fast path asks the input for its length and gives up when that
-            // fails; that is the twin's behaviour, not the library's, so the twin is no reference here
-            reader = Reader::Decode;
-        }
         let rec = Record { w_lay, r_lay, shape, vals, splits, writer, reader };
         let l = model_bytes(&rec, ops.wb()).0.len();
         if !records.is_empty() && len + l > MAX_STREAM {
